@@ -2,6 +2,11 @@ SPECIFICATION Spec
 CONSTANTS
   Kinds <- KindsAll
   NeedsWitness <- Needs
+  FeeKinds <- Fees
+  ParamKind = "setparam"
+  MaxParam = 0
+  MaxRestart = 0
+  StaleGasTable = FALSE
   Variants <- QuickVariants
   SameAddr <- ProbedSameAddr
   MaxTx = 2
